@@ -1,9 +1,11 @@
 pub mod c07;
 pub mod c09;
+pub mod c10;
 pub mod c11;
+pub mod c12;
 
 use crate::runner::Check;
 
 pub fn all() -> Vec<Box<dyn Check>> {
-    vec![Box::new(c07::C07), Box::new(c09::C09), Box::new(c11::C11)]
+    vec![Box::new(c07::C07), Box::new(c09::C09), Box::new(c10::C10), Box::new(c11::C11), Box::new(c12::C12)]
 }
